@@ -1,12 +1,12 @@
 package sim
 
 import (
-	"strings"
 	"math/big"
 	"strconv"
+	"strings"
 
-	"mhubsim/hub"
 	govtypes "github.com/cosmos/cosmos-sdk/x/gov/types"
+	"mhubsim/hub"
 
 	mhub2types "github.com/MinterTeam/mhub2/module/x/mhub2/types"
 	sdk "github.com/cosmos/cosmos-sdk/types"
@@ -172,4 +172,4 @@ func (w *World) doGov(in Intent) {
 		}
 	}
 }
-func (w *World) doLogicCall(in Intent)    {}
+func (w *World) doLogicCall(in Intent) {}
